@@ -133,13 +133,17 @@ func c05Calls(pol types.LoadBalancerType, n int) int {
 		return vreport.Pick(2, 3)
 	case types.RoundRobin, types.WeightedRoundRobin:
 		return n + 2 // the cursor wraps
-	case types.LeastActiveRequest, types.LeastActiveConnection:
-		return 2
-	case types.PeakEwma:
-		if n >= 3 {
+	case types.LeastActiveRequest, types.LeastActiveConnection, types.PeakEwma:
+		// up to 3 draws per call (two picks and a fallback start): the draw space is
+		// alphabet^(3*calls) per (health, counters) pattern, so the number of calls
+		// shrinks as the set grows
+		switch {
+		case n <= 2:
+			return 2
+		case n == 3:
 			return vreport.Pick(1, 2)
 		}
-		return 2
+		return 1
 	}
 	return 3 // maglev, request-RR: 3 entries on the same context (first try + 2 retries)
 }
@@ -359,7 +363,7 @@ func TestVerifC05Policies(t *testing.T) {
 
 	complete := vreport.Run(p, gen, check)
 	p.End(complete,
-		fmt.Sprintf("policies %v; host sets of 0..%d hosts; weights equal / (1,2,..) / (128,1,..); all 2^n health patterns; active request+connection counters in {0,1} per host for least-request, least-connection, peak-EWMA; every value of every random draw (construction and selection) from the alphabet Int63=(a<<32)|(b<<31), a in 0..n-1 (n hosts), b in 0..1, which reaches every residue of Intn(m) and Uint32()%%m for every m<=n; calls per balancer: random %d, RR/WRR n+2, least-* 2, peak-EWMA 2 (n>=3: %d), maglev/request-RR 3 entries on one context x every table index as hash x retry index none/0..4",
+		fmt.Sprintf("policies %v; host sets of 0..%d hosts; weights equal / (1,2,..) / (128,1,..); all 2^n health patterns; active request+connection counters in {0,1} per host for least-request, least-connection, peak-EWMA; every value of every random draw (construction and selection) from the alphabet Int63=(a<<32)|(b<<31), a in 0..n-1 (n hosts), b in 0..1, which reaches every residue of Intn(m) and Uint32()%%m for every m<=n; calls per balancer: random %d, RR/WRR n+2, least-*/peak-EWMA 2 for n<=2, %d for n=3, 1 for n=4, maglev/request-RR 3 entries on one context x every table index as hash x retry index none/0..4",
 			c05Policies, maxN, c05Calls(types.Random, 0), c05Calls(types.PeakEwma, 3)),
 		"full cartesian product; per group every draw sequence by odometer; one evaluation = one judged ChooseHost result; distinct = (group, sequence of chosen member indices); outcome = policy x weight class x result kind. Not compared (statement silent): which host (nil or an unhealthy member) is returned when no member is healthy; maglev without a hash policy returning nil")
 }
